@@ -52,6 +52,9 @@ CHECKS = {
  "C14": dict(technique="operation-sequence PBT (clone / visibility / camel-case / extend / fix_type_references on the source or earlier results) with invariants after every step",
              text="After each drawn operation the result must be closed, hidden elements must be gone from types, references, introspection and queries, every untargeted element must keep its resolver objects, python names, defaults, descriptions and deprecations, and the source schema must keep its structure, closedness, SDL and probe-query answer.",
              note="Trusted: attrs()/snapshot()/check_result() in props/c14.py, vlib/ref/schemastruct.closed.", ref="3/C14"),
+ "C15": dict(technique="model-based PBT: introspection result decoded into the schema-structure model and compared with an independent extraction; semantic default-value round trip; includeDeprecated and disable_introspection probes",
+             text="For generated schemas the standard introspection query's result must decode to exactly the structure extracted from schema.types/directives (kinds, members in order, wrappers, interfaces, possible types, directives, roots, deprecations); each defaultValue must parse as a GraphQL value and coerce to the declared default; includeDeprecated absent/false/true and disable_introspection behave as specified; thorough repeats it under every runtime configuration.",
+             note="Trusted: decode()/expected_from_schema() in props/c15.py, vlib/ref/schemastruct.extract.", ref="3/C15"),
 }
 ALL = ["C%02d" % i for i in range(1, 21)]
 NA_REASON = "check not built yet (work in progress; see DESIGN.md section 3 for the planned design)"
